@@ -121,6 +121,106 @@ Plan Plan::parse(const std::string& text)
 	return p;
 }
 
+// ---------------------------------------------------------------- pristine-process reference server
+static bool write_all_fd(int fd, const void* p, size_t n)
+{
+	const char* c = (const char*) p;
+	while(n)
+	{
+		ssize_t w = ::write(fd, c, n);
+		if(w < 0 && errno == EINTR)
+			continue;
+		if(w <= 0)
+			return false;
+		c += w;
+		n -= (size_t) w;
+	}
+	return true;
+}
+static bool read_all_fd(int fd, void* p, size_t n)
+{
+	char* c = (char*) p;
+	while(n)
+	{
+		ssize_t r = ::read(fd, c, n);
+		if(r < 0 && errno == EINTR)
+			continue;
+		if(r <= 0)
+			return false;
+		c += r;
+		n -= (size_t) r;
+	}
+	return true;
+}
+static bool send_msg(int fd, const std::string& m)
+{
+	uint64_t n = m.size();
+	return write_all_fd(fd, &n, 8) && write_all_fd(fd, m.data(), m.size());
+}
+static bool recv_msg(int fd, std::string& m)
+{
+	uint64_t n = 0;
+	if(!read_all_fd(fd, &n, 8) || n > (1ull << 30))
+		return false;
+	m.resize((size_t) n);
+	return n == 0 || read_all_fd(fd, &m[0], (size_t) n);
+}
+
+void RefServer::start(std::function<std::string(const std::string&)> handler)
+{
+	int rq[2], rs[2];
+	if(pipe(rq) != 0 || pipe(rs) != 0)
+		return;
+	fflush(nullptr);
+	pid_t pid = fork();
+	if(pid == 0)
+	{
+		close(rq[1]);
+		close(rs[0]);
+		std::string m;
+		while(recv_msg(rq[0], m))
+		{
+			int wp[2];
+			if(pipe(wp) != 0)
+				_exit(1);
+			pid_t w = fork();
+			if(w == 0)
+			{
+				close(wp[0]);
+				alarm(120);
+				std::string a = handler(m);
+				send_msg(wp[1], a);
+				_exit(0);
+			}
+			close(wp[1]);
+			std::string a;
+			bool got = recv_msg(wp[0], a);
+			close(wp[0]);
+			int st = 0;
+			while(waitpid(w, &st, 0) < 0 && errno == EINTR) {}
+			bool ok = got && WIFEXITED(st) && WEXITSTATUS(st) == 0;
+			send_msg(rs[1], std::string(ok ? "1" : "0") + (ok ? a : std::string()));
+		}
+		_exit(0);
+	}
+	close(rq[0]);
+	close(rs[1]);
+	req	 = rq[1];
+	resp = rs[0];
+}
+
+bool RefServer::ask(const std::string& request, std::string& response, bool& worker_ok)
+{
+	if(req < 0 || !send_msg(req, request))
+		return false;
+	std::string m;
+	if(!recv_msg(resp, m) || m.empty())
+		return false;
+	worker_ok = m[0] == '1';
+	response  = m.substr(1);
+	return true;
+}
+
 // ---------------------------------------------------------------- json helpers
 static std::string jstr(const std::string& s)
 {
